@@ -71,7 +71,7 @@ def run(tier, seed):
             c["ins"] = [c["ins"][0]] + [rnd.choice([-1, -5, BN, BN + 3, 2 ** 256 + 7, 2 ** 300, -2 ** 260, 3, BN - 1]) for _ in c["ins"][1:]]
             c["cfg"]["ign"] = 1
         cases.append(c)
-    for i, c in enumerate(cases): c.update(id=i, prove=1, full=1)
+    for i, c in enumerate(cases): c.update(id=i, prove=(2 if i % 2 else 1), full=1)
     try:
         recs = progs.run_impl_cases(cases, full=True, real_backend="snarkjs")
     except Exception as e:
